@@ -152,6 +152,10 @@ func newPkg(pkg *packages.Package, u *Universe) Package {
 		}
 	}
 
+	// trailing comment groups are visited as *ast.CommentGroup too,
+	// but should never be the leading comments of next line
+	trailingCommentGroups := make(map[*ast.CommentGroup]bool)
+
 	for i := range p.Package.Syntax {
 		f := p.Package.Syntax[i]
 
@@ -186,17 +190,23 @@ func newPkg(pkg *packages.Package, u *Universe) Package {
 					}
 				}
 			case *ast.CommentGroup:
-				collectCommentGroup(x, false, x.Pos())
+				if !trailingCommentGroups[x] {
+					collectCommentGroup(x, false, x.Pos())
+				}
 			case *ast.ValueSpec:
+				trailingCommentGroups[x.Comment] = true
 				collectCommentGroup(x.Doc, false, x.Pos())
 				collectCommentGroup(x.Comment, true, x.Pos())
 			case *ast.ImportSpec:
+				trailingCommentGroups[x.Comment] = true
 				collectCommentGroup(x.Doc, false, x.Pos())
 				collectCommentGroup(x.Comment, true, x.Pos())
 			case *ast.TypeSpec:
+				trailingCommentGroups[x.Comment] = true
 				collectCommentGroup(x.Doc, false, x.Pos())
 				collectCommentGroup(x.Comment, true, x.Pos())
 			case *ast.Field:
+				trailingCommentGroups[x.Comment] = true
 				collectCommentGroup(x.Doc, false, x.Pos())
 				collectCommentGroup(x.Comment, true, x.Pos())
 			}
